@@ -187,6 +187,14 @@ Theorem C06_heap_remove : forall h i, heap_inv h -> (i < List.length h)%nat ->
 Proof. exact heap_Remove_spec. Qed.
 Print Assumptions C06_heap_remove.
 
+(* heap.Init (not used by the repository) establishes the invariant from ANY slice whose index
+   fields are consistent, keeping the multiset *)
+Theorem C06_heap_init : forall h, idx_ok h ->
+  exists h', heap_Init h = Ok h' /\ heap_inv h' /\ Permutation (map h_data h') (map h_data h) /\
+    List.length h' = List.length h.
+Proof. exact heap_Init_spec. Qed.
+Print Assumptions C06_heap_init.
+
 (* up and down end within the fuel their callers give, on ANY slice *)
 Theorem C06_heap_up_terminates : forall fuel h j, (j < List.length h)%nat -> (j < fuel)%nat ->
   exists h', hp_up fuel h j = Ok h' /\ List.length h' = List.length h.
